@@ -214,7 +214,7 @@ def compaction_legal(n, rs, rsl, size, asl, r0=0, a0=0, descending=False):
     return True
 
 
-def drive_compaction(rec, quick):
+def drive_compaction(rec, quick, cases=()):
     """res is the same base pointer as one source with another stride (a limb vector compacted, or compacted and cleared, in place; the
     one-limb case with different nominal strides).  Only shapes where every output limb is its own source limb or overlaps nothing that
     is still to be read are driven (compaction_legal), so the result must equal the out-of-place result.  Unary operations, and add / sub
@@ -235,6 +235,15 @@ def drive_compaction(rec, quick):
                        for (rsl, asl, r0, a0) in ((4 * n, 3 * n, 0, n), (n, 3 * n, n, 0), (n, 2 * n, n, 0), (3 * n, 4 * n, n, 0), (2 * n, 2 * n, 0, n),
                                                   (2 * n, 2 * n, n, 0), (n, 2 * n, 2 * n, 0), (3 * n, n, 0, n))
                        if compaction_legal(n, rs, rsl, size, asl, r0, a0)]
+            # the layouts enumerated by TLC from Overlay.tla (box N0 = 2), scaled to this dimension: a sample of them; the rule written in
+            # Python above must agree with the specification on every one of them
+            t_ = n // 2
+            asc = [c for c in cases if not c["desc"]]
+            for c in asc:
+                if not compaction_legal(2, c["rs"], c["rsl"], c["size"], c["asl"], c["r0"], c["a0"]):
+                    raise Infra("Overlay.tla and compaction_legal disagree on %s" % c)
+            shapes += [(c["size"], c["rs"], c["rsl"] * t_, c["asl"] * t_, c["r0"] * t_, c["a0"] * t_)
+                       for c in rng.sample(asc, min(len(asc), 40 if quick else 400))]
             for op in ("rotate", "automorphism", "copy", "negate", "add:a", "add:b", "sub:a", "sub:b"):
                 for (size, rs, rsl, asl, r0, a0) in shapes:
                     words = max(a0 + (size - 1) * asl, r0 + (rs - 1) * rsl) + n
@@ -370,7 +379,21 @@ def run(chk, replay=None):
                  timeout=1200)
     chk.traces += d["ok"] if d else 0
     chk.cov["idft_overlay_cases"] = len(ocases)
-    d = isolated(chk, "in-place compaction (res == a, a_sl >= res_sl + N)", drive_compaction, (quick,), timeout=900)
+    # which in-buffer layouts are well defined is decided by Overlay.tla: the rule (Legal) is checked against the loop on a buffer of cells for
+    # every layout of the box, an illegal layout that ends wrong is the witness, and the legal layouts are replayed (a sample, scaled)
+    ro_ = run_tlc("Overlay", "Overlay.cfg", workers=8, name="c13-overlay", timeout=900)
+    tlc_must_pass(ro_, "Overlay: legal layouts end with the out-of-place result")
+    chk.add_tlc(ro_, "in-buffer layouts: every layout of the box (N0 = 2, sizes <= 3 / 5, strides <= 7, offsets <= 4, both orders)")
+    rw_ = run_tlc("Overlay", "Overlay_witness.cfg", workers=4, name="c13-overlay-witness", timeout=900)
+    chk.cov["an_illegal_layout_ends_wrong_in_the_model"] = (rw_.violation == "IllegalAlsoFine")
+    if rw_.violation != "IllegalAlsoFine":
+        chk.notes.append("Overlay_witness.cfg found no illegal layout that ends wrong: the legality rule may be vacuous")
+    rg_ = run_tlc("Overlay", "Overlay_gen.cfg", workers=1, name="c13-overlay-gen", timeout=900)
+    tlc_must_pass(rg_, "Overlay gen")
+    chk.add_tlc(rg_, "behaviour generation")
+    ocases = printed_json(rg_, "CASE")
+    chk.cov["legal_layouts_generated"] = len(ocases)
+    d = isolated(chk, "operations inside one buffer (layouts from Overlay.tla)", drive_compaction, (quick, ocases), timeout=1500)
     chk.traces += d["ok"] if d else 0
     r = run_tlc("Pointwise", "Pointwise_gen.cfg", workers=1, name="c13-pwgen")
     tlc_must_pass(r, "Pointwise gen")
